@@ -140,3 +140,39 @@ void drv_c01_mpz(int tier, unsigned long seed, const char *extra) {
     rec_quiesce();
   }
 }
+
+/* Piece-structured corner operands.  A Toom-k routine splits each operand into k pieces and evaluates signed sums of them: whether a difference
+   is zero or negative, a piece zero or all ones, a carry out of an evaluation point, is decided by the PIECES.  For one size in each regime
+   (Karatsuba, Toom-3, Toom-4, Toom-8.5, balanced and the unbalanced ratios) every piece is drawn from {zero, all ones, one, top bit}: all
+   combinations where that is affordable, a seeded sample of them otherwise.  Product through mpn_mul / mpn_mul_n / mpn_sqr (the dispatch picks the regime). */
+static void fill_pieces(mp_ptr p, mp_size_t n, int k, unsigned long code) {
+  mp_size_t L = (n + k - 1) / k, i; int j;
+  for (j = 0; j < k; j++) { int sym = (int)(code % 4); mp_size_t lo = j * L, hi = lo + L > n ? n : lo + L; code /= 4;
+    for (i = lo; i < hi; i++) p[i] = sym == 1 ? ~(mp_limb_t)0 : 0;
+    if (hi > lo) { if (sym == 2) p[lo] = 1; else if (sym == 3) p[hi - 1] = (mp_limb_t)1 << 63; } }
+}
+void drv_c01_pieces(int tier, unsigned long seed, const char *extra) {
+  shard_t sh = shard_parse(extra); long x = 0; int ci;
+  struct { int k; mp_size_t n; long want; } cfg[] = {
+    {2, (MUL_KARATSUBA_THRESHOLD + MUL_TOOM3_THRESHOLD) / 2, 256}, {3, (MUL_TOOM3_THRESHOLD + MUL_TOOM4_THRESHOLD) / 2 + 1, 1200}, {4, (MUL_TOOM4_THRESHOLD + MUL_TOOM8H_THRESHOLD) / 2 + 1, 700},
+    {8, MUL_TOOM8H_THRESHOLD + 67, 400}, {3, MUL_TOOM3_THRESHOLD + 2, 500}, {4, MUL_TOOM4_THRESHOLD + 3, 400} };
+  if (sh.pure) return;
+  for (ci = 0; ci < 6; ci++) {
+    int k = cfg[ci].k; mp_size_t n = cfg[ci].n; unsigned long ncode = 1, t, per; long want = tier ? cfg[ci].want * 4 : cfg[ci].want, done = 0; int j;
+    for (j = 0; j < k; j++) ncode *= 4;                 /* codes per operand */
+    per = 60;
+    for (t = 0; done < want; t++) {
+      unsigned long ca, cb; mp_size_t bn; mp_ptr a, b, r; int ub;
+      if (ncode * ncode <= (unsigned long)want) { if (t >= ncode * ncode) break; ca = t % ncode; cb = t / ncode; } else { ca = rnd_below(ncode); cb = rnd_below(ncode); }
+      done++;
+      if (done % per == 1) { x++; if (MINE(sh, x)) rec_reset("c01_pieces", x, seed); }
+      if (!MINE(sh, x)) continue;
+      ub = (int)(t % 5); bn = ub == 3 ? (n * 2) / 3 + 1 : ub == 4 ? n / 2 + 2 : n;             /* balanced mostly; 3:2 and 2:1 shapes (toom32 / toom42 / toom53 regions) */
+      a = gb_get(0, n, (int)(t & 1)); b = gb_get(1, bn, (int)(t & 1)); r = gb_get(2, n + bn, 1);
+      fill_pieces(a, n, k, ca); fill_pieces(b, bn, k, cb);
+      gb_fill(r, n + bn); log_mul("mpn_mul", a, n, b, bn); { mp_limb_t top = mpn_mul(r, a, n, b, bn); fn_out_u64("top", top); } out_mul(r, n + bn);
+      if (bn == n && t % 3 == 0) { gb_fill(r, 2 * n); log_mul("mpn_mul_n", a, n, b, n); mpn_mul_n(r, a, b, n); out_mul(r, 2 * n); }
+      if (t % 7 == 0) { mp_ptr r2 = gb_get(3, 2 * n, 1); gb_fill(r2, 2 * n); log_mul("mpn_sqr", a, n, a, n); mpn_sqr(r2, a, n); out_mul(r2, 2 * n); }
+    }
+  }
+}
